@@ -311,6 +311,19 @@ def nvRead (s : St) (authHandle h size offset : Nat) : St × Nat × Bytes :=
     if size > i.size - offset then (s, TPM_RC_NV_RANGE, []) else
     (s, 0, (i.data.drop offset).take size)
 
+/-- `TPM2_NV_Certify` (unsigned: signHandle TPM_RH_NULL): the read access checks of NV_Read, then the range, then the
+    buffer limit; the attested structure carries these bytes, the offset and the index Name -/
+def RC_NV_Certify_size : Nat := 0x340        -- TPM_RC_P + parameter 3
+def nvCertify (s : St) (authHandle h size offset : Nat) : St × Nat × Bytes :=
+  match enter s authHandle h 0x184 with
+  | .error rc => (s, rc, [])
+  | .ok (s, i) =>
+    let rc := readAccess authHandle i
+    if rc ≠ 0 then (s, rc, []) else
+    if size + offset > i.size then (s, TPM_RC_NV_RANGE, []) else
+    if size > MAX_NV_BUFFER_SIZE then (s, TPM_RC_VALUE + RC_NV_Certify_size, []) else
+    (s, 0, (i.data.drop offset).take size)
+
 def nvReadLock (s : St) (authHandle h : Nat) : St × Nat :=
   match enter s authHandle h 0x14F with
   | .error rc => (s, rc)
